@@ -80,6 +80,10 @@ CHECKS = {
          "Exploration: 2000 generated compatible master families (1-2 axes, 2-4 masters, intermediate/sparse masters, axis maps, rules, aligned/ragged kerning, both UFO libraries) x ~14 instance locations each (master locations, axis extremes, rule boundaries, interior points) x rounding on/off; every coordinate, advance, anchor, info number and kerning value is compared with the master (at master locations) or the closed-form blend; glyph set, unicodes, rule swaps (involution), source snapshots and k-th generation == first are checked.",
          "Closed forms cover the layouts listed in the evidence assumptions; exact ties accept both neighbours only where the statement does not fix the rounding mode.",
          "DESIGN.md section 5 C19, section 3 R-var, 4.5"),
+ "C09": ("runtime monitoring: structural comparison of the produced master fonts glyph by glyph (contours, end points, on/off flags, component lists, CFF operator sequences), sparse-master glyph-set bounds, with a per-master control compile that counts would-be divergences",
+         "Exploration: 1200 generated compatible master families (per-master exaggerated curvature so that a per-master cu2qu diverges - measured by the control -, per-master component 2x2 differences, sparse layer masters) through compileInterpolatableTTFs / TTFsFromDS / OTFsFromDS with flattenComponents, skipExportGlyphs and custom filters; every glyph must have identical point structure in all masters that contain it; sparse masters must hold '.notdef', the layer's glyphs and only glyphs tied to them by component references.",
+         "Masters compatible by construction; placeholder glyphs of sparse masters exempt from the structure comparison.",
+         "DESIGN.md section 5 C09"),
 }
 
 NOT_APPLICABLE = [
